@@ -2,8 +2,10 @@ from pyvc.refs_engine import RefsEngine
 from contracts import refs_ctor as _c
 ID = "C06"
 LEVEL = "other"
-CONTRACT_MODULES = ["contracts.refs", "contracts.refs_ctor"]
-FUNCTIONS = [c.qualname for c in _c.CINITS] + ["BaseRef.__hash__"]
+CONTRACT_MODULES = ["contracts.refs", "contracts.refs_ctor", "contracts.refs_paths"]
+FUNCTIONS = [c.qualname for c in _c.CINITS] + ["BaseRef.__hash__", "BaseRef.__getitem__", "MutableRef.__setitem__", "BaseRef.__eq__"]
+# equality is equality of the printed form: the printing rules of the path-building classes are part of the property (C11's contracts)
+BORROW = [("C11", ["Ref.__repr__", "AttrRef.__repr__", "ItemRef.__repr__", "BinOpExpr.__repr__", "UnaryOpExpr.__repr__", "LiteralExpr.__repr__"])]
 ENGINE = RefsEngine
 RAC = "rac/c06.py"
 RAC_BUDGET = {"quick": 50, "thorough": 400}
